@@ -33,6 +33,7 @@ NLk == 2 * Len(Las) + 1
 
 \* transitions lists: none, one, two (sorted by token type)
 TransOpt(j, tt1, tt2) == CASE j = 0 -> <<>> [] j = 1 -> << <<tt1, 0>> >> [] j = 2 -> << <<tt1, 1>>, <<tt2, 0>> >>
+                           [] j = 3 -> << <<tt1, 1>>, <<tt2, 1>> >>      \* two transitions to the same mode
 
 \* a one-pattern mode for every (name, pattern, token type, lookahead option, transition option)
 N1 == Len(Names) * Len(Pats) * Len(TTs) * NLk * 2
@@ -48,8 +49,8 @@ Mode1(k) ==
 Mode2(k, other) ==
   LET m == Mode1(k) IN
   [name |-> m.name, patterns |-> << m.patterns[1], PatRec(Pats[(k % Len(Pats)) + 1], 9, (k * 7) % NLk) >>,
-   transitions |-> IF m.patterns[1].token_type < 9 THEN TransOpt(2, m.patterns[1].token_type, 9)
-                   ELSE TransOpt(2, 9, m.patterns[1].token_type)]
+   transitions |-> IF m.patterns[1].token_type < 9 THEN TransOpt(2 + (k % 2), m.patterns[1].token_type, 9)
+                   ELSE TransOpt(2 + (k % 2), 9, m.patterns[1].token_type)]
 NPair == 400
 \* lists with a mode that has no pattern at all (e.g. a mode that is only a transition target)
 EmptyPatternModes ==
